@@ -550,6 +550,13 @@ func (m Migrator) MigrateColumn(value interface{}, field *schema.Field, columnTy
 				v1, _ := strconv.ParseBool(dv)
 				v2, _ := strconv.ParseBool(field.DefaultValue)
 				alterColumn = v1 != v2
+			case schema.Int, schema.Uint, schema.Float:
+				// the column is created from the parsed default, not from the spelling in the tag
+				// ("+5", "0x10", "1.50"): a default equal to either needs no change
+				alterColumn = dv != field.DefaultValue
+				if alterColumn && field.DefaultValueInterface != nil {
+					alterColumn = dv != fmt.Sprint(field.DefaultValueInterface)
+				}
 			default:
 				alterColumn = dv != field.DefaultValue
 			}
